@@ -1229,3 +1229,19 @@ pub fn check_term(ev: &Ev, cx: &mut Cx) -> Res {
     cx.class_if(ev.first("metric_value").is_some() && plain.lines().count() >= 2, "term-sparkline-or-detail");
     Ok(())
 }
+
+// ---------------------------------------------------------------------------------------------
+// Engine E6 (libFuzzer target `value_to_sinks`)
+
+/// The event one fuzzer input denotes (grammar decoder of `fuzz.rs`); `None` = the decoder rejected the bytes.
+pub fn fuzz_decode(data: &[u8]) -> Option<Ev> {
+    fuzz::event(&mut arbitrary::Unstructured::new(data)).ok()
+}
+
+/// `Res`-returning form of `fuzz::fuzz_entry_value_to_sinks` (same decoder, same oracle: rolling file + the four OTLP
+/// emitters over the in-process loopback pipeline, no terminal child). Used by the libFuzzer target, which reports the
+/// failure itself, and by the check binary's `fuzz-artifact` generator, which replays libFuzzer artifacts.
+pub fn fuzz_entry(data: &[u8]) -> Res {
+    let Some(ev) = fuzz_decode(data) else { return Ok(()) };
+    vcore::with_cx("C13", |cx| check_event(&ev, cx, Sinks { file: true, otlp: true, term: false }))
+}
